@@ -22,7 +22,7 @@ EXPLANATION = (
     'propagated: a raising feeder signals on_error and stops, the five routed entry points return the error value of '
     'their role, a failed response future becomes an ERROR frame (shared with C10.a). Not decided: that requests on '
     'other streams are afterwards served correctly (a run-time fact).')
-EXPLANATION_ADDED = ('(g) an unsolicited LEASE cannot stall requests (shared C14.f); send_error puts exactly one ERROR frame with the stream id given; a request on a stream id in use is rejected before anything is registered (shared C13.d); the data of the ERROR frame built for whatever a handler raised is text for every exception object, and every construction of a protocol error passes text (C12.g), so serialising the reply cannot kill the sender task; (h) every websocket-style transport hands the frame parser bytes only - the hand-off is guarded by a test of the message type (BINARY / isinstance bytes) or the value comes from an API that returns bytes only - so a TEXT message from the peer is ignored instead of raising in the parser and ending the connection.')
+EXPLANATION_ADDED = ('(g) an unsolicited LEASE cannot stall requests (shared C14.f); send_error puts exactly one ERROR frame with the stream id given; a request on a stream id in use is rejected before anything is registered (shared C13.d); the data of the ERROR frame built for whatever a handler raised is text for every exception object, and every construction of a protocol error passes text (C12.g), so serialising the reply cannot kill the sender task; (h) every websocket-style transport hands the frame parser bytes only - the hand-off is guarded by a test of the message type (BINARY / isinstance bytes) or the value comes from an API that returns bytes only - so a TEXT message from the peer is ignored instead of raising in the parser and ending the connection; (i) every function kept in a dispatch table (frame logger, receive dispatch) and the default handed to .get() accepts the number of positional arguments the call site of the table passes.')
 EXPLANATION = EXPLANATION.replace(' Not decided', ' ' + EXPLANATION_ADDED + ' Not decided', 1) \
     if ' Not decided' in EXPLANATION else EXPLANATION + ' ' + EXPLANATION_ADDED
 ASSUMPTIONS = COMMON_ASSUMPTIONS
@@ -475,6 +475,14 @@ def rule_k(ctx):
     rule_only_bytes_reach_the_parser(ctx, 'C12.h')
 
 
+def rule_l(ctx):
+    """Every function stored in a dispatch table accepts the arguments its table is called with (rules/binding.py):
+    the frame logger runs inside the receive loop, before the invalid-frame marker is dropped, so a logger entry with
+    another signature raises there."""
+    from .binding import rule_dispatch_table_arity
+    rule_dispatch_table_arity(ctx, 'C12.i', ['rsocket'], 'library dispatch tables')
+
+
 def rule_g(ctx):
     """An unsolicited LEASE frame cannot stall the victim's requests (shared C14.f)."""
     from .c14 import rule_gate_scope
@@ -482,4 +490,4 @@ def rule_g(ctx):
 
 
 RULES = [('C12.a', rule_a), ('C12.b', rule_b), ('C12.c', rule_c), ('C12.d', rule_d), ('C12.e', rule_e),
-         ('C12.f', rule_f), ('C14.f', rule_g), ('C12.b', rule_h), ('C13.d', rule_i), ('C12.g', rule_j), ('C12.h', rule_k)]
+         ('C12.f', rule_f), ('C14.f', rule_g), ('C12.b', rule_h), ('C13.d', rule_i), ('C12.g', rule_j), ('C12.h', rule_k), ('C12.i', rule_l)]
